@@ -156,3 +156,80 @@ def _r_nl_mixed(f):
         if "NONLITERAL" in line and "+" in line.split("NONLITERAL")[1].split("#")[0]:
             return "(2 instances)" in line
     return False
+
+
+# ------------------------------------------------------------------ C02
+@trigger("c02_kinds_thresholded_separately")
+def _t_c02_kinds(f, obs):
+    """a non-literal key is missing although enough instances have a non-literal value, because
+    neither the IRI kind nor the BNode kind reaches the threshold on its own"""
+    if obs.get("kind") != "missing_key":
+        return False
+    inv, prop, vc = obs["key"]
+    if vc != "nonliteral":
+        return False
+    cfg, g, c = obs["cfg"], obs["triples"], obs["class"]
+    a, b = cfg['th']
+    N = obs["N"]
+    sel = _oracle.selection(g, cfg)
+    ni = nb = 0
+    ignore = cfg.get('ignore_ns') or []
+    for n, cls in sel.items():
+        if c not in cls:
+            continue
+        kinds = set()
+        for s, p, o in g:
+            if p != prop:
+                continue
+            if not inv and s[1] == n and s[0] in 'IB' and o[0] in 'IB':
+                kinds.add(o[0])
+            if inv and o[0] in 'IB' and o[1] == n and s[0] in 'IB':
+                kinds.add(s[0])
+        ni += 'I' in kinds
+        nb += 'B' in kinds
+    return ni * b < a * N and nb * b < a * N
+
+
+@replayer("c02_kinds_thresholded_separately")
+def _r_c02_kinds(f):
+    nt = "".join(l + " .\n" for l in [_e('a') + " " + _T + " " + _e('C'), _e('b') + " " + _T + " " + _e('C'),
+                                       _e('a') + " " + _e('p') + " " + _e('x'), _e('b') + " " + _e('p') + " _:y"])
+    import common
+    from shexer.shaper import Shaper
+    out = Shaper(raw_graph=nt, all_classes_mode=True).shex_graph(string_output=True, acceptance_threshold=0.6)
+    return "example.org/p" not in out
+
+
+@trigger("c02_reference_to_removed_shape")
+def _t_c02_gone(f, obs):
+    """a non-literal key is missing because its values are instances of a class whose (empty) shape
+    was removed: the statement that referred to that shape is dropped instead of falling back to IRI"""
+    if obs.get("kind") != "missing_key" or obs["key"][2] != "nonliteral" or not obs["cfg"]["remove_empty"]:
+        return False
+    inv, prop, _ = obs["key"]
+    cfg, g, c = obs["cfg"], obs["triples"], obs["class"]
+    sel = _oracle.selection(g, cfg)
+    produced = set(sh['label'] for sh in obs["parsed"]['shapes'])
+    for s, p, o in g:
+        if p != prop or s[0] not in 'IB' or o[0] not in 'IB':
+            continue
+        node, val = (o, s) if inv else (s, o)
+        if node[1] in sel and c in sel[node[1]] and val[1] in sel:
+            if any(_oracle.shape_label(d, SHAPES_NS_DEFAULT) not in produced and _oracle.shape_label(d, cfg['shapes_ns']) not in produced
+                   for d in sel[val[1]]):
+                return True
+    return False
+
+
+SHAPES_NS_DEFAULT = "http://weso.es/shapes/"
+
+
+@replayer("c02_reference_to_removed_shape")
+def _r_c02_gone(f):
+    import common
+    from shexer.shaper import Shaper
+    nt = "".join(l + " .\n" for l in [_e('a') + " " + _T + " " + _e('C'), _e('x') + " " + _T + " " + _e('D'),
+                                       _e('a') + " " + _e('p') + " " + _e('x'), _e('a') + " " + _e('q') + ' "v"'])
+    out = Shaper(raw_graph=nt, all_classes_mode=True,
+                 namespaces_to_ignore=["http://www.w3.org/1999/02/22-rdf-syntax-ns#"]).shex_graph(string_output=True)
+    return "example.org/q" in out and "example.org/p" not in out
